@@ -8,6 +8,7 @@ package main
 import (
 	"database/sql"
 	"fmt"
+	"strings"
 
 	"gorm.io/gorm"
 	"gorm.io/gorm/clause"
@@ -358,6 +359,48 @@ func allXOps(r *lib.Rng) []*Op {
 	return ops
 }
 
+// sessOpts: every Session option the harness can set (one token each); combinations are joined with "+"
+var sessOpts = []string{"newdb", "skiphooks", "dryrun", "queryfields", "fullsave", "allowglobal", "batchsize", "skipdeftx", "nonested",
+	"preparestmt", "propagateunscoped", "nowfunc", "logger", "cctx", "bctx", "vctx3", "vctx7"}
+
+// randSess: a random combination of 1..3 distinct Session options
+func randSess(r *lib.Rng) string {
+	k := lib.Pick(r, []int{1, 2, 2, 3})
+	opts := append([]string(nil), sessOpts...)
+	lib.Shuffle(r, opts)
+	picked := opts[:k]
+	nctx := 0
+	var out []string
+	for _, o := range picked {
+		if o == "cctx" || o == "bctx" || strings.HasPrefix(o, "vctx") {
+			nctx++
+			if nctx > 1 { // one context per Session call
+				continue
+			}
+		}
+		out = append(out, o)
+	}
+	return strings.Join(out, "+")
+}
+
+// allSessForks: every Session option alone, together with NewDB, and the non-SQL ones pairwise: the
+// children genFork derives from the judged handle (never executed, or executed once)
+func allSessForks() []string {
+	var out []string
+	for _, o := range sessOpts {
+		out = append(out, o)
+		if o != "newdb" {
+			out = append(out, "newdb+"+o)
+		}
+	}
+	for _, c := range []string{"cctx", "vctx3", "bctx"} {
+		for _, o := range []string{"skiphooks", "dryrun", "preparestmt", "queryfields"} {
+			out = append(out, c+"+"+o, "newdb+"+c+"+"+o)
+		}
+	}
+	return out
+}
+
 // genFork: a state-carrying reusable handle (any Session style); chains forked from it apply ONE
 // operation each - the i-th case takes the next `per` entries of allXOps - and are finished or abandoned;
 // between and after them the handle itself is judged with finishers that show conditions, ordering,
@@ -370,6 +413,21 @@ func genFork(r *lib.Rng, i, per int) Input {
 	cur := push(Step{K: "derive", P: 0, Op: &Op{K: "x_model", Names: []string{m}}})
 	for k := r.Range(0, 3); k > 0; k-- {
 		cur = push(Step{K: "derive", P: cur, Op: all[r.Intn(len(all))]})
+	}
+	// state of the SAME kind as the forks will add (another form of the same chain method): a fork that
+	// reaches the handle's own slice / map / clause of that kind meets something there
+	for j := 0; j < per; j++ {
+		if r.Chance(1, 4) {
+			continue
+		}
+		k := all[(i*per+j)%len(all)].K
+		var same []*Op
+		for _, o := range all {
+			if o.K == k {
+				same = append(same, o)
+			}
+		}
+		cur = push(Step{K: "derive", P: cur, Op: same[r.Intn(len(same))]})
 	}
 	h := push(Step{K: "sess", P: cur, Sess: lib.Pick(r, []string{"plain", "plain", "ctx", "debug", "debug", "skiphooks", "queryfields", "preparestmt"})})
 	judge := func() {
@@ -389,6 +447,13 @@ func genFork(r *lib.Rng, i, per int) Input {
 		}
 		judge()
 	}
+	// a child HANDLE with Session options, derived from the judged handle: never executed, or executed once
+	sf := allSessForks()
+	c := push(Step{K: "sess", P: h, Sess: sf[i%len(sf)]})
+	if r.Bool() {
+		push(Step{K: "finish", P: c, Fin: &Fin{K: "x_find", M: m}})
+	}
+	judge()
 	judge()
 	return in
 }
